@@ -499,6 +499,17 @@ def r8_thaw_thresholds(ck, P):
     cnt = occupancy_counters(P)
     ng = [c for c in cnt if any(k == 'delta' and d > 0 for k, d, x in _counter_updates(ro['insert']).get(c, []))]
     NG = ng[0] if len(ng) == 1 else None
+    def strict_bound(f, cc, t, s):
+        """K such that the guarded side is entered exactly when the tested quantity is > K (None when the test has another shape)"""
+        ks = [(i_, int(a[1])) for i_, a in enumerate(cc.a) if a[0] == 'c']
+        if len(ks) != 1:
+            return None
+        pos, k = ks[0]; pr = cc.d['p']
+        if pos == 0:
+            pr = {'slt': 'sgt', 'sgt': 'slt', 'sle': 'sge', 'sge': 'sle'}.get(pr, pr)
+        if t.d['succ'][0] != s:
+            pr = {'slt': 'sge', 'sge': 'slt', 'sgt': 'sle', 'sle': 'sgt'}.get(pr, pr)
+        return {'sgt': k, 'sge': k - 1}.get(pr)
     n = 0
     for f in u.functions.values():
         cs = [c for c in f.calls() if c.callee == clr.name]
@@ -514,6 +525,8 @@ def r8_thaw_thresholds(ck, P):
                 ks = [int(a[1]) for a in cc.a if a[0] == 'c']
                 if not ks or ks[0] == 0:
                     continue
+                kb = strict_bound(f, cc, t, s)
+                ks = [kb if kb is not None else ks[0]]
                 n += 1
                 if ks[0] == hi:
                     ck.ok(R, '%s: %s guarded by a comparison with %d at %s' % (f.name, clr.name, hi, cc.loc()))
@@ -529,6 +542,8 @@ def r8_thaw_thresholds(ck, P):
                     continue
                 y = f.v([a for a in cc.a if a[0] != 'c'][0])
                 lf = f.last_field(f.path(y.a[0])) if y is not None and y.op == 'load' else None
+                kb = strict_bound(f, cc, t, s)
+                ks = [kb if kb is not None else ks[0]]
                 n += 1
                 want = lo if lf == NG else hi
                 if ks[0] == want:
